@@ -349,6 +349,19 @@ impl Prop for C17 {
         }
     }
 
+    fn sanitizer_cases(&self, _seed: u64) -> Vec<Value> {
+        // the in-memory mirror: a connection that is not released is a leak at exit
+        let mut v = Vec::new();
+        for ty in ALL_TYPES {
+            for state in ["idle", "recv-pending-dropped", "after-traffic"] {
+                for how in ["close", "drop"] {
+                    v.push(json!({"kind": "mirror", "ty": ty, "state": state, "how": how}));
+                }
+            }
+        }
+        v
+    }
+
     fn floors(&self, tier: Tier) -> Vec<(&'static str, u64)> {
         vec![
             ("mirror_cases", 54),
